@@ -80,6 +80,16 @@ func emit(items []*Item) string {
 		return fmt.Sprintf("(.rep .%s %s %s %s)", it.Prim, q(it.Name), emit(it.A), emit(rest))
 	case "times":
 		return fmt.Sprintf("(.times %s %s %s %s)", it.Val, q(it.Name), emit(it.A), emit(rest))
+	case "sub":
+		return fmt.Sprintf("(.sub %s %s %s)", q(it.Name), emit(it.A), emit(rest))
+	case "key":
+		return fmt.Sprintf("(.key %s .%s %s %s)", q(it.Name), it.Prim, q(it.Val), emit(rest))
+	case "avail":
+		return fmt.Sprintf("(.avail %s)", emit(it.A))
+	case "gap":
+		return fmt.Sprintf("(g%s %s)", it.Val, emit(rest))
+	case "mopt":
+		return fmt.Sprintf("(.mopt %s %s %s %s)", it.Val, q(it.Name), emit(it.A), emit(rest))
 	case "wrap":
 		return fmt.Sprintf("(.wrap %s %s)", emit(it.A), emit(rest))
 	case "hdr":
@@ -230,25 +240,34 @@ func stripConv(e ast.Expr) (ast.Expr, string) {
 // ---------------------------------------------------------------- function context
 
 type ctx struct {
-	owner     string            // struct type the subject denotes
-	subj      map[string]string // identifiers denoting an object: name -> struct type (receiver, record param, m := NewX())
-	streams   map[string]*[]*Item
-	params    map[string]bool   // other parameters (version)
-	counts    map[string]string // local -> table it counts   (cnt := len(this.F))
-	enums     map[string]string // en -> table
-	ents      map[string]string // e (entry var) -> table
-	elems     map[string]string // r -> table (r := this.F[i]; for _, r := range this.F)
-	elemType  map[string]string // table -> element struct type
-	pending   *pendingCount     // a count has been written/read; the loop must follow
-	roles     map[string]string // reader locals: "fld:<name>" | "count" | "var" | "key" | "val"
-	locPrim   map[string]string // reader local -> prim it was read with
-	reader    bool
-	wraps     []wrapFix // reader sub-streams, filled in at the end
-	loopTable string    // reader: table the current loop fills (this.F[i].Read / this.F.Put)
-	loopElem  string    // reader: struct type of the current loop's elements
-	madeTable string    // reader: this.F = make(...) seen just before the loop
-	subStream string    // stream used by the sub-blocks of the item being built
-	inTimes   int       // inside a constant-bound loop: this.F[i] denotes cell i of F
+	owner      string            // struct type the subject denotes
+	subj       map[string]string // identifiers denoting an object: name -> struct type (receiver, record param, m := NewX())
+	streams    map[string]*[]*Item
+	params     map[string]bool   // other parameters (version)
+	counts     map[string]string // local -> table it counts   (cnt := len(this.F))
+	enums      map[string]string // en -> table
+	ents       map[string]string // e (entry var) -> table
+	elems      map[string]string // r -> table (r := this.F[i]; for _, r := range this.F)
+	elemType   map[string]string // table -> element struct type
+	pending    *pendingCount     // a count has been written/read; the loop must follow
+	roles      map[string]string // reader locals: "fld:<name>" | "count" | "var" | "key" | "val"
+	locPrim    map[string]string // reader local -> prim it was read with
+	reader     bool
+	wraps      []wrapFix         // reader sub-streams, filled in at the end
+	loopTable  string            // reader: table the current loop fills (this.F[i].Read / this.F.Put)
+	loopElem   string            // reader: struct type of the current loop's elements
+	madeTable  string            // reader: this.F = make(...) seen just before the loop
+	subStream  string            // stream used by the sub-blocks of the item being built
+	inTimes    int               // inside a constant-bound loop: this.F[i] denotes cell i of F
+	depth      int               // nesting of wBlock/rBlock: 1 = the function's own statements
+	failAt     int               // index (in the slice given to the depth-1 block) of the statement that failed
+	snap       snapshot          // state before the current depth-1 statement
+	lastStream string            // stream of the item added last
+	gaps       []string          // statements that could not be transcribed (lenient mode): they become parameters
+	lparams    map[string]bool   // writer: interface types that became layout parameters
+	keyFields  map[string]bool   // reader: fields the body switches on
+	dynType    map[string]string // reader: this.F = &T{}
+	dynElem    map[string]string // reader: this.F[i] = &T{}
 }
 
 type pendingCount struct {
@@ -258,6 +277,13 @@ type pendingCount struct {
 }
 
 func (c *ctx) fieldType(owner, f string) ast.Expr {
+	if i := strings.IndexByte(f, '.'); i >= 0 { // "A.B": field B of the struct that A is / points to
+		t := c.fieldType(owner, f[:i])
+		if t == nil {
+			return nil
+		}
+		return c.fieldType(typeName(t), f[i+1:])
+	}
 	si := structs[owner]
 	if si == nil {
 		return nil
@@ -283,6 +309,15 @@ func (c *ctx) fieldOf(e ast.Expr) (string, string, bool) {
 	}
 	sel, ok := e.(*ast.SelectorExpr)
 	if !ok {
+		return "", "", false
+	}
+	if inner, isSel := sel.X.(*ast.SelectorExpr); isSel {
+		// this.A.B : a field of the struct the field A points to — path "A.B"
+		if f, owner, ok := c.fieldOf(inner); ok {
+			if t := c.fieldType(owner, f); t != nil && structs[typeName(t)] != nil {
+				return f + "." + sel.Sel.Name, owner, true
+			}
+		}
 		return "", "", false
 	}
 	id, ok := sel.X.(*ast.Ident)
@@ -434,61 +469,163 @@ func isPanicBlock(b *ast.BlockStmt) bool {
 // ---------------------------------------------------------------- writer
 
 func (c *ctx) wBlock(stmts []ast.Stmt, cur string) error {
-	for k, st := range stmts {
-		switch s := st.(type) {
-		case *ast.ExprStmt:
-			call, ok := s.X.(*ast.CallExpr)
-			if !ok {
-				return unk("writer: expression statement %s", exprStr(s))
+	c.depth++
+	defer func() { c.depth-- }()
+	for k := range stmts {
+		if c.depth == 1 {
+			c.takeSnap()
+		}
+		done, err := c.wStmt(k, stmts, cur)
+		if err != nil {
+			if c.depth == 1 {
+				c.restoreSnap()
+				c.failAt = k
 			}
-			if err := c.wCall(call, cur); err != nil {
-				return err
-			}
-		case *ast.AssignStmt:
-			if err := c.wAssign(s); err != nil {
-				return err
-			}
-		case *ast.IncDecStmt:
-			if _, ok := s.X.(*ast.Ident); !ok {
-				return unk("writer: %s", exprStr(s))
-			}
-		case *ast.ReturnStmt:
+			return err
+		}
+		if done {
 			return nil
-		case *ast.ForStmt:
-			if err := c.wFor(s.Cond, s.Body, cur); err != nil {
-				return err
-			}
-		case *ast.RangeStmt:
-			tab, owner, ok := c.fieldOf(s.X)
-			if !ok {
-				return unk("writer: range over %s", exprStr(s.X))
-			}
-			if v, ok := s.Value.(*ast.Ident); ok {
-				c.elems[v.Name] = tab
-				c.elemType[tab] = elemTypeOf(c.fieldType(owner, tab))
-			}
-			if err := c.wLoop(tab, s.Body, cur); err != nil {
-				return err
-			}
-		case *ast.IfStmt:
-			done, err := c.wIf(s, stmts[k+1:], cur)
-			if err != nil {
-				return err
-			}
-			if done {
-				return nil
-			}
-		case *ast.DeclStmt, *ast.EmptyStmt:
-		default:
-			return unk("writer: statement %T", st)
 		}
 	}
 	return nil
 }
 
+func (c *ctx) wStmt(k int, stmts []ast.Stmt, cur string) (bool, error) {
+	st := stmts[k]
+	switch s := st.(type) {
+	case *ast.ExprStmt:
+		call, ok := s.X.(*ast.CallExpr)
+		if !ok {
+			return false, unk("writer: expression statement %s", exprStr(s))
+		}
+		if err := c.wCall(call, cur); err != nil {
+			return false, err
+		}
+	case *ast.AssignStmt:
+		if err := c.wAssign(s); err != nil {
+			return false, err
+		}
+	case *ast.IncDecStmt:
+		if _, ok := s.X.(*ast.Ident); !ok {
+			return false, unk("writer: %s", exprStr(s))
+		}
+	case *ast.ReturnStmt:
+		return true, nil
+	case *ast.ForStmt:
+		if err := c.wFor(s.Cond, s.Body, cur); err != nil {
+			return false, err
+		}
+	case *ast.RangeStmt:
+		tab, owner, ok := c.fieldOf(s.X)
+		if !ok {
+			return false, unk("writer: range over %s", exprStr(s.X))
+		}
+		if v, ok := s.Value.(*ast.Ident); ok {
+			c.elems[v.Name] = tab
+			c.elemType[tab] = elemTypeOf(c.fieldType(owner, tab))
+		}
+		if err := c.wLoop(tab, s.Body, cur); err != nil {
+			return false, err
+		}
+	case *ast.IfStmt:
+		done, err := c.wIf(s, stmts[k+1:], cur)
+		if err != nil {
+			return false, err
+		}
+		if done {
+			return true, nil
+		}
+	case *ast.DeclStmt, *ast.EmptyStmt:
+	default:
+		return false, unk("writer: statement %T", st)
+	}
+	return false, nil
+}
+
 func (c *ctx) add(cur string, it *Item) {
 	l := c.streams[cur]
 	*l = append(*l, it)
+	c.lastStream = cur
+}
+
+type snapshot struct {
+	lens      map[string]int
+	pending   *pendingCount
+	subStream string
+	nwraps    int
+}
+
+func (c *ctx) takeSnap() {
+	sn := snapshot{lens: map[string]int{}, pending: c.pending, subStream: c.subStream, nwraps: len(c.wraps)}
+	for n, l := range c.streams {
+		sn.lens[n] = len(*l)
+	}
+	c.snap = sn
+}
+
+func (c *ctx) restoreSnap() {
+	for n, l := range c.streams {
+		if k, ok := c.snap.lens[n]; ok {
+			*l = (*l)[:k]
+		} else {
+			delete(c.streams, n)
+		}
+	}
+	c.pending, c.subStream = c.snap.pending, c.snap.subStream
+	c.wraps = c.wraps[:c.snap.nwraps]
+	c.inTimes = 0
+}
+
+// top runs the function's statements; a statement whose shape is not known becomes a gap: a parameter of
+// the layout (a continuation transformer), filled in by hand in Golib/Packs and pinned by its text
+func (c *ctx) top(stmts []ast.Stmt, cur string, reader bool) error {
+	pos := 0
+	for pos < len(stmts) {
+		c.failAt = -1
+		var err error
+		if reader {
+			err = c.rBlock(stmts[pos:], cur)
+		} else {
+			err = c.wBlock(stmts[pos:], cur)
+		}
+		if err == nil {
+			return nil
+		}
+		if _, isUnk := err.(unknownErr); !isUnk || c.failAt < 0 {
+			return err
+		}
+		st := stmts[pos+c.failAt]
+		target := ""
+		ast.Inspect(st, func(n ast.Node) bool {
+			if id, ok := n.(*ast.Ident); ok && target == "" {
+				if _, ok := c.streams[id.Name]; ok {
+					target = id.Name
+				}
+			}
+			return true
+		})
+		if target == "" {
+			target = c.lastStream
+		}
+		if target == "" {
+			target = cur
+		}
+		text := exprStr(st)
+		if c.pending != nil {
+			// a count was written/read just before and this statement was to be its loop: both are the gap
+			text = fmt.Sprintf("count(%s %s%s); %s", c.pending.prim, c.pending.table, c.pending.local, text)
+			c.pending = nil
+		}
+		l := c.streams[target]
+		if n := len(*l); n > 0 && (*l)[n-1].Kind == "gap" && (*l)[n-1].Val == strconv.Itoa(len(c.gaps)-1) {
+			c.gaps[len(c.gaps)-1] += " ; " + text // consecutive statements: one gap
+		} else {
+			c.add(target, &Item{Kind: "gap", Val: strconv.Itoa(len(c.gaps))})
+			c.gaps = append(c.gaps, text)
+		}
+		pos += c.failAt + 1
+	}
+	return nil
 }
 
 func (c *ctx) wAssign(s *ast.AssignStmt) error {
@@ -706,6 +843,12 @@ func (c *ctx) wCall(call *ast.CallExpr, cur string) error {
 						return nil
 					}
 					t := c.fieldType(owner, f)
+					if ifaces[typeName(t)] {
+						// dynamic dispatch on the concrete type: the layout takes that type's layout as a parameter
+						c.lparams[typeName(t)] = true
+						c.add(st, &Item{Kind: "sub", Name: f, A: []*Item{{Kind: "ref", Ref: typeName(t)}}})
+						return nil
+					}
 					switch typeName(t) {
 					case "value.MapValue":
 						c.add(st, &Item{Kind: "fld", Name: f, Prim: "mapBody", Rng: "any"})
@@ -720,6 +863,11 @@ func (c *ctx) wCall(call *ast.CallExpr, cur string) error {
 				if ix, ok := recv.(*ast.IndexExpr); ok {
 					if f, owner, ok := c.fieldOf(ix.X); ok {
 						et := elemTypeOf(c.fieldType(owner, f))
+						if ifaces[et] {
+							c.lparams[et] = true
+							c.add(st, &Item{Kind: "ref", Ref: et})
+							return nil
+						}
 						c.add(st, &Item{Kind: "ref", Ref: et + ".w"})
 						return nil
 					}
@@ -895,6 +1043,35 @@ func (c *ctx) wIf(s *ast.IfStmt, rest []ast.Stmt, cur string) (bool, error) {
 		c.addSub(cur, &Item{Kind: "ite", Cond: cd, A: th, B: el})
 		return false, nil
 	}
+	// optional section: if X != nil [&& X.Size() > 0] { flag 1; … } else { flag 0 }   (or the mirrored form)
+	if name, nonNilFirst, ok := c.presenceCond(s.Cond); ok && s.Else != nil {
+		if eb, isBlock := s.Else.(*ast.BlockStmt); isBlock {
+			pres, abs := s.Body, eb
+			if !nonNilFirst {
+				pres, abs = eb, s.Body
+			}
+			if isFlagWrite(c, abs.List, "0") && len(abs.List) == 1 && len(pres.List) >= 1 {
+				flag := ""
+				for _, v := range []string{"1", "2", "3", "4", "5", "6", "7", "8", "9"} {
+					if isFlagWrite(c, pres.List[:1], v) {
+						flag = v
+					}
+				}
+				if flag != "" {
+					body, err := c.sub(cur, func() error { return c.wBlock(pres.List[1:], cur) })
+					if err != nil {
+						return false, err
+					}
+					if flag == "1" {
+						c.addSub(cur, &Item{Kind: "opt", Name: name, A: body})
+					} else {
+						c.addSub(cur, &Item{Kind: "mopt", Val: flag, Name: name, A: body})
+					}
+					return false, nil
+				}
+			}
+		}
+	}
 	// nil tests on a field
 	b, ok := s.Cond.(*ast.BinaryExpr)
 	if ok && (b.Op == token.EQL || b.Op == token.NEQ) {
@@ -943,6 +1120,70 @@ func (c *ctx) wIf(s *ast.IfStmt, rest []ast.Stmt, cur string) (bool, error) {
 	return false, unk("writer: if %s", exprStr(s.Cond))
 }
 
+// presenceCond: `this.X != nil`, `this.X != nil && this.X.Size() > 0`, `this.X == nil`
+func (c *ctx) presenceCond(e ast.Expr) (string, bool, bool) {
+	if b, ok := e.(*ast.BinaryExpr); ok && b.Op == token.LAND {
+		n1, nn, ok1 := c.presenceCond(b.X)
+		if ok1 && nn {
+			if r, ok := b.Y.(*ast.BinaryExpr); ok && r.Op == token.GTR {
+				if z, ok := intLit(r.Y); ok && z == "0" {
+					if call, ok := r.X.(*ast.CallExpr); ok {
+						if sel, ok := call.Fun.(*ast.SelectorExpr); ok && sel.Sel.Name == "Size" {
+							if f, _, ok := c.fieldOf(sel.X); ok && f == n1 {
+								return n1, true, true
+							}
+						}
+					}
+				}
+			}
+		}
+		return "", false, false
+	}
+	b, ok := e.(*ast.BinaryExpr)
+	if !ok || (b.Op != token.NEQ && b.Op != token.EQL) {
+		return "", false, false
+	}
+	if id, ok := b.Y.(*ast.Ident); !ok || id.Name != "nil" {
+		return "", false, false
+	}
+	f, _, ok := c.fieldOf(b.X)
+	if !ok {
+		return "", false, false
+	}
+	return f, b.Op == token.NEQ, true
+}
+
+// isFlagWrite: the single statement out.WriteByte(v) / out.WriteBool(v != 0)
+func isFlagWrite(c *ctx, stmts []ast.Stmt, v string) bool {
+	if len(stmts) != 1 {
+		return false
+	}
+	es, ok := stmts[0].(*ast.ExprStmt)
+	if !ok {
+		return false
+	}
+	call, ok := es.X.(*ast.CallExpr)
+	if !ok || len(call.Args) != 1 {
+		return false
+	}
+	sel, ok := call.Fun.(*ast.SelectorExpr)
+	if !ok {
+		return false
+	}
+	if _, ok := c.streamOf(sel.X); !ok {
+		return false
+	}
+	switch sel.Sel.Name {
+	case "WriteByte":
+		n, ok := intLit(call.Args[0])
+		return ok && n == v
+	case "WriteBool":
+		id, ok := call.Args[0].(*ast.Ident)
+		return ok && ((v == "1" && id.Name == "true") || (v == "0" && id.Name == "false"))
+	}
+	return false
+}
+
 // ---------------------------------------------------------------- reader
 
 // readCall: in.ReadP()  (possibly under conversions)  ->  (stream, prim, outer conversion)
@@ -971,6 +1212,12 @@ func (c *ctx) readCall(e ast.Expr) (string, string, string, bool) {
 func (c *ctx) scanRoles(body *ast.BlockStmt) {
 	ast.Inspect(body, func(n ast.Node) bool {
 		switch s := n.(type) {
+		case *ast.SwitchStmt:
+			if s.Tag != nil {
+				if f, _, ok := c.fieldOf(s.Tag); ok {
+					c.keyFields[f] = true
+				}
+			}
 		case *ast.AssignStmt:
 			if len(s.Lhs) == 1 && len(s.Rhs) == 1 {
 				// this.F = x | this.F = &x | this.F = T(x)
@@ -1064,54 +1311,79 @@ func (c *ctx) setRole(name, role string) {
 }
 
 func (c *ctx) rBlock(stmts []ast.Stmt, cur string) error {
-	for k, st := range stmts {
-		switch s := st.(type) {
-		case *ast.ExprStmt:
-			call, ok := s.X.(*ast.CallExpr)
-			if !ok {
-				return unk("reader: expression statement %s", exprStr(s))
+	c.depth++
+	defer func() { c.depth-- }()
+	for k := range stmts {
+		if c.depth == 1 {
+			c.takeSnap()
+		}
+		done, err := c.rStmt(k, stmts, cur)
+		if err != nil {
+			if c.depth == 1 {
+				c.restoreSnap()
+				c.failAt = k
 			}
-			if err := c.rCall(call, cur); err != nil {
-				return err
-			}
-		case *ast.AssignStmt:
-			if err := c.rAssign(s, cur); err != nil {
-				return err
-			}
-		case *ast.DeclStmt: // var ver = din.ReadByte()
-			gd, ok := s.Decl.(*ast.GenDecl)
-			if !ok || gd.Tok != token.VAR {
-				return unk("reader: declaration %s", exprStr(s))
-			}
-			for _, sp := range gd.Specs {
-				vs := sp.(*ast.ValueSpec)
-				if len(vs.Names) != 1 || len(vs.Values) != 1 {
-					return unk("reader: declaration %s", exprStr(s))
-				}
-				if err := c.rLocal(vs.Names[0].Name, vs.Values[0], cur); err != nil {
-					return err
-				}
-			}
-		case *ast.ReturnStmt:
+			return err
+		}
+		if done {
 			return nil
-		case *ast.ForStmt:
-			if err := c.rFor(s, cur); err != nil {
-				return err
-			}
-		case *ast.IfStmt:
-			done, err := c.rIf(s, stmts[k+1:], cur)
-			if err != nil {
-				return err
-			}
-			if done {
-				return nil
-			}
-		case *ast.EmptyStmt:
-		default:
-			return unk("reader: statement %T", st)
 		}
 	}
 	return nil
+}
+
+func (c *ctx) rStmt(k int, stmts []ast.Stmt, cur string) (bool, error) {
+	st := stmts[k]
+	switch s := st.(type) {
+	case *ast.ExprStmt:
+		call, ok := s.X.(*ast.CallExpr)
+		if !ok {
+			return false, unk("reader: expression statement %s", exprStr(s))
+		}
+		if err := c.rCall(call, cur); err != nil {
+			return false, err
+		}
+	case *ast.AssignStmt:
+		if err := c.rAssign(s, cur); err != nil {
+			return false, err
+		}
+	case *ast.DeclStmt: // var ver = din.ReadByte()
+		gd, ok := s.Decl.(*ast.GenDecl)
+		if !ok || gd.Tok != token.VAR {
+			return false, unk("reader: declaration %s", exprStr(s))
+		}
+		for _, sp := range gd.Specs {
+			vs := sp.(*ast.ValueSpec)
+			if len(vs.Names) != 1 || len(vs.Values) != 1 {
+				return false, unk("reader: declaration %s", exprStr(s))
+			}
+			if err := c.rLocal(vs.Names[0].Name, vs.Values[0], cur); err != nil {
+				return false, err
+			}
+		}
+	case *ast.ReturnStmt:
+		return true, nil
+	case *ast.ForStmt:
+		if err := c.rFor(s, cur); err != nil {
+			return false, err
+		}
+	case *ast.IfStmt:
+		done, err := c.rIf(s, stmts[k+1:], cur)
+		if err != nil {
+			return false, err
+		}
+		if done {
+			return true, nil
+		}
+	case *ast.SwitchStmt:
+		if err := c.rSwitch(s, cur); err != nil {
+			return false, err
+		}
+	case *ast.EmptyStmt:
+	default:
+		return false, unk("reader: statement %T", st)
+	}
+	return false, nil
 }
 
 func (c *ctx) rLocal(name string, rhs ast.Expr, cur string) error {
@@ -1183,6 +1455,9 @@ type wrapFix struct {
 
 var ctorType = map[string]string{}
 
+// interface types of the package (Cpu, Memory): a field of such a type is written by dynamic dispatch
+var ifaces = map[string]bool{}
+
 // ctorParams: constructor NewT(a, b, c) whose body is `p.F = a; p.G = b; …` -> the field each parameter fills
 var ctorParams = map[string][]string{}
 
@@ -1213,6 +1488,13 @@ func (c *ctx) rAssign(s *ast.AssignStmt, cur string) error {
 			if _, ok := rhs.(*ast.CompositeLit); ok {
 				return nil
 			}
+			if u, ok := rhs.(*ast.UnaryExpr); ok && u.Op == token.AND {
+				if cl, ok := u.X.(*ast.CompositeLit); ok && len(cl.Elts) == 0 {
+					c.dynElem[f] = typeName(cl.Type)
+					c.loopTable = f
+					return nil
+				}
+			}
 			if c.inTimes > 0 {
 				// this.F[i] = T(in.ReadShort()) & 0xffff : the low 16 bits, unsigned
 				if b, ok := rhs.(*ast.BinaryExpr); ok && b.Op == token.AND {
@@ -1242,10 +1524,21 @@ func (c *ctx) rAssign(s *ast.AssignStmt, cur string) error {
 	if !ok {
 		return unk("reader: assignment to %s", exprStr(lhs))
 	}
+	// this.F = &T{}  — the concrete type chosen for an interface-typed field
+	if u, ok := rhs.(*ast.UnaryExpr); ok && u.Op == token.AND {
+		if cl, ok := u.X.(*ast.CompositeLit); ok && len(cl.Elts) == 0 && ifaces[typeName(c.fieldType(owner, f))] {
+			c.dynType[f] = typeName(cl.Type)
+			return nil
+		}
+	}
 	// this.F = in.ReadP()
 	if st, p, conv, ok := c.readCall(rhs); ok {
 		if c.pending != nil {
 			return unk("reader: the count in %s is not followed by its loop", c.pending.local)
+		}
+		if c.keyFields[f] { // the body switches on this field: it is delivered AND bound to a local of its name
+			c.add(st, &Item{Kind: "key", Name: f, Prim: p, Val: f})
+			return nil
 		}
 		t := c.fieldType(owner, f)
 		if t == nil {
@@ -1289,6 +1582,12 @@ func (c *ctx) rAssign(s *ast.AssignStmt, cur string) error {
 		// this.F = CreateMap(n) : a table allocated by a helper that touches no stream and no field
 		if id, ok := call.Fun.(*ast.Ident); ok && ctorOnly[id.Name] && !c.mentionsStream(call) {
 			return nil
+		}
+		// this.F = NewT() | new(T) : a fresh struct to read into
+		if id, ok := call.Fun.(*ast.Ident); ok && !c.mentionsStream(call) {
+			if _, isCtor := ctorType[id.Name]; (isCtor && len(call.Args) == 0) || id.Name == "new" {
+				return nil
+			}
 		}
 		if sel, ok := call.Fun.(*ast.SelectorExpr); ok && strings.HasPrefix(sel.Sel.Name, "New") {
 			if _, isStream := c.streamOf(sel.X); !isStream {
@@ -1361,6 +1660,13 @@ func (c *ctx) rCall(call *ast.CallExpr, cur string) error {
 					c.add(st, &Item{Kind: "hdr"})
 					return nil
 				}
+				if ifaces[typeName(c.fieldType(owner, f))] {
+					if dt, ok := c.dynType[f]; ok {
+						c.add(st, &Item{Kind: "sub", Name: f, A: []*Item{{Kind: "ref", Ref: dt + ".r"}}})
+						return nil
+					}
+					return unk("reader: %s.Read on an interface field whose concrete type is not set just before", f)
+				}
 				switch typeName(c.fieldType(owner, f)) {
 				case "value.MapValue":
 					c.add(st, &Item{Kind: "fld", Name: f, Prim: "mapBody", Rng: "any"})
@@ -1374,7 +1680,15 @@ func (c *ctx) rCall(call *ast.CallExpr, cur string) error {
 			if ix, ok := recv.(*ast.IndexExpr); ok {
 				if f, owner, ok := c.fieldOf(ix.X); ok {
 					c.loopTable = f
-					c.add(st, &Item{Kind: "ref", Ref: elemTypeOf(c.fieldType(owner, f)) + ".r"})
+					et := elemTypeOf(c.fieldType(owner, f))
+					if ifaces[et] {
+						dt, ok := c.dynElem[f]
+						if !ok {
+							return unk("reader: %s[i].Read on interface elements whose concrete type is not set", f)
+						}
+						et = dt
+					}
+					c.add(st, &Item{Kind: "ref", Ref: et + ".r"})
 					return nil
 				}
 			}
@@ -1474,9 +1788,73 @@ func (c *ctx) rFor(s *ast.ForStmt, cur string) error {
 	return nil
 }
 
+// switch this.F { case A, B: …  case C: … }  with F a key field: a chain of tests on the local F
+func (c *ctx) rSwitch(s *ast.SwitchStmt, cur string) error {
+	if s.Init != nil || s.Tag == nil {
+		return unk("reader: switch without a field tag")
+	}
+	f, _, ok := c.fieldOf(s.Tag)
+	if !ok || !c.keyFields[f] {
+		return unk("reader: switch %s", exprStr(s.Tag))
+	}
+	type arm struct {
+		v    string
+		body []*Item
+	}
+	var arms []arm
+	for _, cc := range s.Body.List {
+		cl := cc.(*ast.CaseClause)
+		if cl.List == nil {
+			return unk("reader: switch with a default arm")
+		}
+		body, err := c.sub(cur, func() error { return c.rBlock(cl.Body, cur) })
+		if err != nil {
+			return err
+		}
+		for _, e := range cl.List {
+			v, ok := intLit(e)
+			if !ok {
+				return unk("reader: case %s", exprStr(e))
+			}
+			arms = append(arms, arm{v, body})
+		}
+	}
+	var chain []*Item
+	for i := len(arms) - 1; i >= 0; i-- {
+		chain = []*Item{{Kind: "ite", Cond: &Cond{"eq", f, arms[i].v}, A: arms[i].body, B: chain}}
+	}
+	target := c.subStream // the stream the arms read from (all arms the same: checked by sub)
+	c.subStream = ""
+	if target == "" {
+		target = cur
+	}
+	for _, it := range chain {
+		c.add(target, it)
+	}
+	return nil
+}
+
 func (c *ctx) rIf(s *ast.IfStmt, rest []ast.Stmt, cur string) (bool, error) {
 	if s.Init != nil {
 		return false, unk("reader: if with init")
+	}
+	// if in.Available() == 0 { return }  — the rest is read only when input is left
+	if b, ok := s.Cond.(*ast.BinaryExpr); ok && b.Op == token.EQL && s.Else == nil && endsWithReturn(s.Body) && len(s.Body.List) == 1 {
+		if z, ok := intLit(b.Y); ok && z == "0" {
+			if call, ok := b.X.(*ast.CallExpr); ok && len(call.Args) == 0 {
+				if sel, ok := call.Fun.(*ast.SelectorExpr); ok && sel.Sel.Name == "Available" {
+					if st, ok := c.streamOf(sel.X); ok {
+						body, err := c.sub(cur, func() error { return c.rBlock(rest, cur) })
+						if err != nil {
+							return false, err
+						}
+						c.subStream = ""
+						c.add(st, &Item{Kind: "avail", A: body})
+						return true, nil
+					}
+				}
+			}
+		}
 	}
 	if s.Else == nil {
 		flagExpr := s.Cond
@@ -1507,6 +1885,9 @@ func (c *ctx) rIf(s *ast.IfStmt, rest []ast.Stmt, cur string) (bool, error) {
 			}
 			if name == "" {
 				return false, unk("reader: optional section without a field")
+			}
+			if i := strings.IndexByte(name, '.'); i > 0 {
+				name = name[:i] // this.X.F = … : the section is the struct-valued field X
 			}
 			c.add(st, &Item{Kind: "opt", Name: name, A: body})
 			return false, nil
@@ -1561,24 +1942,32 @@ func (c *ctx) rIf(s *ast.IfStmt, rest []ast.Stmt, cur string) (bool, error) {
 // ---------------------------------------------------------------- driving
 
 type layout struct {
-	name  string // Lean name: T
-	w, r  string
-	wRefs map[string]bool
-	rRefs map[string]bool
-	wWhy  string
-	rWhy  string
+	wGaps, rGaps []string // statements not transcribed: parameters g0, g1, … of T.w / T.r
+	wParams      []string // interface types the writer dispatches on: parameters of T.w
+	name         string   // Lean name: T
+	w, r         string
+	wRefs        map[string]bool
+	rRefs        map[string]bool
+	wWhy         string
+	rWhy         string
 }
 
 func newCtx(owner string, reader bool) *ctx {
 	return &ctx{owner: owner, subj: map[string]string{}, streams: map[string]*[]*Item{}, params: map[string]bool{},
 		counts: map[string]string{}, enums: map[string]string{}, ents: map[string]string{}, elems: map[string]string{},
-		elemType: map[string]string{}, roles: map[string]string{}, locPrim: map[string]string{}, reader: reader}
+		elemType: map[string]string{}, roles: map[string]string{}, locPrim: map[string]string{}, reader: reader,
+		lparams: map[string]bool{}, keyFields: map[string]bool{}, dynType: map[string]string{}, dynElem: map[string]string{}}
 }
 
 // extra per-function reader state
 func init() {}
 
+var lastParams []string
+var lastGaps []string
+
 func transcribe(fd *ast.FuncDecl, recvType, subjType string, reader bool) (items []*Item, why string) {
+	lastParams = nil
+	lastGaps = nil
 	defer func() {
 		if r := recover(); r != nil {
 			items, why = nil, fmt.Sprintf("translator panic: %v", r)
@@ -1615,10 +2004,9 @@ func transcribe(fd *ast.FuncDecl, recvType, subjType string, reader bool) (items
 	var err error
 	if reader {
 		c.scanRoles(fd.Body)
-		err = c.rBlock(fd.Body.List, cur)
-	} else {
-		err = c.wBlock(fd.Body.List, cur)
 	}
+	err = c.top(fd.Body.List, cur, reader)
+	lastGaps = c.gaps
 	if err == nil && c.pending != nil {
 		err = unk("a count is read/written but no loop follows")
 	}
@@ -1629,6 +2017,10 @@ func transcribe(fd *ast.FuncDecl, recvType, subjType string, reader bool) (items
 	for _, wf := range c.wraps {
 		wf.w.A = *wf.l
 	}
+	for p := range c.lparams {
+		lastParams = append(lastParams, p)
+	}
+	sort.Strings(lastParams)
 	return *c.streams[cur], ""
 }
 
@@ -1662,6 +2054,9 @@ func main() {
 				for _, sp := range t.Specs {
 					switch s := sp.(type) {
 					case *ast.TypeSpec:
+						if _, ok := s.Type.(*ast.InterfaceType); ok {
+							ifaces[s.Name.Name] = true
+						}
 						if st, ok := s.Type.(*ast.StructType); ok {
 							si := &structInfo{fields: map[string]ast.Expr{}}
 							for _, f := range st.Fields.List {
@@ -1784,6 +2179,11 @@ func main() {
 		} else {
 			l.w = emit(wi)
 			refsOf(wi, l.wRefs)
+			l.wParams = lastParams
+			l.wGaps = lastGaps
+			for _, p := range l.wParams {
+				delete(l.wRefs, p)
+			}
 		}
 		ri, why := transcribe(rf.decl, rf.recv, subj, true)
 		if why != "" {
@@ -1791,6 +2191,7 @@ func main() {
 		} else {
 			l.r = emit(ri)
 			refsOf(ri, l.rRefs)
+			l.rGaps = lastGaps
 		}
 		layouts = append(layouts, l)
 	}
@@ -1870,17 +2271,46 @@ func main() {
 				}
 			}
 		}
-		fmt.Fprintf(&b, "def %s.w : L :=\n  %s\ndef %s.r : L :=\n  %s\n\n", l.name, fixRefs(l.w), l.name, fixRefs(l.r))
-	}
-	b.WriteString("/-- every transcribed pair: (type, writer layout, reader layout) -/\ndef all : List (String × L × L) := [\n")
-	for i, l := range ordered {
-		sep := ","
-		if i == len(ordered)-1 {
-			sep = ""
+		sig := func(params, gaps []string) string {
+			out := ""
+			if len(params) > 0 {
+				out += " (" + strings.Join(params, " ") + " : L)"
+			}
+			if len(gaps) > 0 {
+				var gs []string
+				for i := range gaps {
+					gs = append(gs, fmt.Sprintf("g%d", i))
+				}
+				out += " (" + strings.Join(gs, " ") + " : L → L)"
+			}
+			return out
 		}
-		fmt.Fprintf(&b, "  (%s, %s.w, %s.r)%s\n", q(l.name), l.name, l.name, sep)
+		fmt.Fprintf(&b, "def %s.w%s : L :=\n  %s\ndef %s.r%s : L :=\n  %s\n", l.name, sig(l.wParams, l.wGaps), fixRefs(l.w), l.name, sig(nil, l.rGaps), fixRefs(l.r))
+		gapList := func(gs []string) string {
+			var qs []string
+			for _, g := range gs {
+				qs = append(qs, q(g))
+			}
+			return "[" + strings.Join(qs, ", ") + "]"
+		}
+		if len(l.wGaps) > 0 {
+			fmt.Fprintf(&b, "/-- the statements of %s.Write that are not transcribed (the parameters g0, g1, … of %s.w, in order) -/\ndef %s.wGaps : List String :=\n  %s\n", l.name, l.name, l.name, gapList(l.wGaps))
+		}
+		if len(l.rGaps) > 0 {
+			fmt.Fprintf(&b, "def %s.rGaps : List String :=\n  %s\n", l.name, gapList(l.rGaps))
+		}
+		b.WriteString("\n")
 	}
-	b.WriteString("]\n\n")
+	b.WriteString("/-- every pair transcribed completely: (type, writer layout, reader layout) -/\ndef all : List (String × L × L) := [\n")
+	var alls []string
+	for _, l := range ordered {
+		if len(l.wParams) > 0 || len(l.wGaps) > 0 || len(l.rGaps) > 0 {
+			continue // the writer takes layouts as parameters (dynamic dispatch): instantiated in Props/C03Gen.lean
+		}
+		alls = append(alls, fmt.Sprintf("  (%s, %s.w, %s.r)", q(l.name), l.name, l.name))
+	}
+	b.WriteString(strings.Join(alls, ",\n"))
+	b.WriteString("\n]\n\n")
 	b.WriteString("/-- shapes the translator did not transcribe: (type, side, why) -/\ndef untranscribed : List (String × String × String) := [\n")
 	var us []string
 	for _, l := range ordered {
